@@ -19,7 +19,7 @@ import (
 func init() {
 	register(&Check{
 		ID: "C18", Level: "model_checking", QuickSecs: 170, ThoroughSecs: 1500,
-		Rule:        "Controlled scheduler over real goroutines calling Parse on ONE loaded grammar of one runtime variant package. Scenarios (each forces a collision on something shared): s1 state grammar backtracking over #{} with different inputs; s2 the same with a Cloner value in InitState on one side; s3 Memoize(true) next to default options; s4 left-recursive grammar with state (leader loop clones per iteration); s5 Statistics/Debug on one side; s6 different Entrypoints; s7 a block that panics under Recover(true) while cloned states are held; s8 three concurrent calls. Mode A: scheduling points at every state-pool Get/Put and every code block call, environment choice at Get (any pooled map, or a fresh one) - explored WITHOUT a preemption bound using state-key pruning (key = step counter of every thread + number of pooled maps); the three-call scenario has deviation bound 3 in the quick tier. Mode B: additionally a scheduling point at every tick (entry of every parser method and every loop iteration) - plain DFS with iterative preemption bound 0,1,(2). Oracle on every execution: each call's observation (value, errors, block log with state snapshots) equals the observation of the same call run alone; pool discipline monitor silent (no map Put twice, none non-empty from Get); deep dump of the grammar value g identical before and after. A free-running pass of the same scenarios with the real sync.Pool under the Go race detector (sampling, supporting evidence only) must report no race.",
+		Rule:        "Controlled scheduler over real goroutines calling Parse on ONE loaded grammar of one runtime variant package. Scenarios (each forces a collision on something shared): s1 state grammar backtracking over #{} with different inputs; s2 the same with a Cloner value in InitState on one side; s3 Memoize(true) next to default options; s4 left-recursive grammar with state (leader loop clones per iteration); s5 Statistics/Debug on one side; s6 different Entrypoints; s7 a block that panics under Recover(true) while cloned states are held; s8 three concurrent calls. Mode A: scheduling points at every state-pool Get/Put and every code block call, environment choice at Get (any pooled map, or a fresh one) - explored WITHOUT a preemption bound using state-key pruning (key = step counter of every thread + number of pooled maps); the three-call scenario has deviation bound 3 in the quick tier. Mode B: additionally a scheduling point at every tick (entry of every parser method and every loop iteration) - plain DFS with iterative preemption bound 0,1,(2). Every execution starts cold (all package-level variables of the runtime re-initialised). Oracle on every execution: each call's observation (value, errors, block log with state snapshots) equals the observation of the same call run alone; pool discipline monitor silent (no map Put twice, none non-empty from Get); deep dump of the grammar value g identical before and after. A free-running pass of the same scenarios with the real sync.Pool under the Go race detector (sampling, supporting evidence only) must report no race.",
 		Assumptions: []string{"goroutines are serialised at hooked operations; memory-model effects between hooks are only covered by the free-running -race pass", "pruning key soundness: pooled maps are empty and unreferenced while the discipline monitor is silent"},
 		Run:         runC18,
 		Post:        postC18,
@@ -100,6 +100,7 @@ func runScenario(c *ShardCtx, sc scenario, mode string, bound int) {
 		o := cl.Opts
 		o.MaxExpr = 4000
 		vsync.Reset()
+		b.RT.ResetGlobals() // cold start: the call is the first one of the process
 		solo[i] = obsString(b.Run([]byte(cl.In), &o, sc.Script))
 	}
 	gBefore := b.RT.Dump()
@@ -107,6 +108,10 @@ func runScenario(c *ShardCtx, sc scenario, mode string, bound int) {
 	var firstBad *Violation
 	execOnce := func(prefix []int) (*sched.Execution, []string, error) {
 		vsync.Reset()
+		// every execution starts cold: package-level variables of the runtime are
+		// re-initialised, so schedules in which the FIRST calls of a process overlap
+		// are explored (lazily built shared tables, pools, caches)
+		b.RT.ResetGlobals()
 		obs := make([]*rtapi.Obs, len(sc.Calls))
 		var s *sched.Sched
 		bodies := make([]func(int), len(sc.Calls))
